@@ -183,6 +183,9 @@ OnRet(mm, e, meta) ==
         v4 == IF ok THEN
                    (IF WF(cmd, e.f) THEN {} ELSE {"C01.OnlyValidated"})
                    \cup (IF builtFrom THEN {} ELSE {"C07.NoCrossTransmission"})
+                   \* a request completed with one piece that is only the head of an answer (the rest had not arrived)
+                   \cup (IF \E j \in 1..Len(q.parts) : IsData(e.f, <<q.parts[j]>>) /\ Must(cmd, q.parts[j]).must = "partial"
+                         THEN {"C07.Reassembly"} ELSE {})
                    \* a result that is two consecutive pieces glued together although the second is not exactly what the
                    \* first lacks (too long, too short, another answer's tail)
                    \* (the checksummed framings travel over UDP; the statement does not speak about Modbus/TCP here)
